@@ -15,6 +15,9 @@ RWord(S, id, i) == WordChars(RecOfS(S, id).tok, i)
 NWords(tok)     == Len(tok.words)
 AllAlpha(w)     == \A i \in DOMAIN w : TVCI(w[i]).alpha
 Distinct(w)     == Cardinality(SeqRange(w))
+\* a slice of the recorded original array, empty when the recorded bounds do not fit it (a malformed tokenisation is
+\* C15's finding; the predicates here must not fail inside an operator because of it)
+SrcSlice(tok, a, b) == IF a >= 0 /\ a <= b /\ b <= Len(tok.source) THEN StripNul(SubSeq(tok.source, a + 1, b)) ELSE <<>>
 
 \* the letters a language's script offers for substitutions and insertions
 Script(lang) == IF lang = "none" THEN 97..122
@@ -47,7 +50,7 @@ C03(E, S, line) ==
            \* as in the original), again ending in a letter or digit
            \/ /\ Len(E.q) >= 1 /\ IsAlnum(E.q[Len(E.q)])
               /\ LET tok == RecOfS(S, X.rid).tok
-                     src == StripNul(SubSeq(tok.source, tok.words[X.widx].s + 1, tok.words[X.widx].e))
+                     src == SrcSlice(tok, tok.words[X.widx].s, tok.words[X.widx].e)
                  IN IsPrefixOf(E.q, src),
         InHits(E, X.rid), line, "C03", "a prefix of a title word does not find the record")
 
@@ -76,7 +79,7 @@ C13(E, S, line) ==
     ChkIf(/\ HasRecS(S, X.rid) /\ SmallStore(s)
           /\ LET tok == RecOfS(S, X.rid).tok
                  n == NWords(tok)
-                 src(i) == StripNul(SubSeq(tok.source, tok.words[i].s + 1, tok.words[i].e))
+                 src(i) == SrcSlice(tok, tok.words[i].s, tok.words[i].e)
              IN
              /\ n >= 2
              \* two complete words of the title: as the query tokeniser reads the input, or literally - the two words as the
@@ -102,7 +105,7 @@ C14(E, S, line) ==
     \* the word as it is spelled in the title (symbols inside it included), typed with one separator put in at any point
     ChkIf(/\ HasRecS(S, X.rid) /\ SmallStore(s) /\ X.widx \in 1..NWords(RecOfS(S, X.rid).tok)
           /\ LET tok == RecOfS(S, X.rid).tok
-                 src == StripNul(SubSeq(tok.source, tok.words[X.widx].s + 1, tok.words[X.widx].e))
+                 src == SrcSlice(tok, tok.words[X.widx].s, tok.words[X.widx].e)
              IN /\ Len(RWord(S, X.rid, X.widx)) >= 3
                 /\ \E k \in 1..(Len(src) - 1) : \E j \in {k + 1} :
                       /\ Len(E.q) = Len(src) + 1 /\ IsSep(E.q[j])
@@ -131,7 +134,7 @@ C05Prefix(E, S, line) ==
                 /\ IsPrefixOf(QWord(E, 1), WordChars(tok, 1)),
                 /\ Len(p.spans) = 1
                 /\ SubSeq(p.plain, p.spans[1].a + 1, p.spans[1].b)
-                     = StripNul(SubSeq(tok.source, tok.words[1].s + 1, tok.words[1].s + Len(QWord(E, 1)))),
+                     = SrcSlice(tok, tok.words[1].s, tok.words[1].s + Len(QWord(E, 1))),
                 line, "C05", "exact prefix of a one-word title is not highlighted exactly")
 
 ----------------------------------------------------------------------------
